@@ -5,3 +5,4 @@ import PhQVerif.Core.Tables
 import PhQVerif.Core.Check
 import PhQVerif.Core.Lex
 import PhQVerif.Core.Angle
+import PhQVerif.Core.Direction
